@@ -47,19 +47,26 @@ class TcpClient(object):
 
         msg_stop = False
         self.current_msg = ""
-        for b in self.buffer:
+        msg_start = None  # position of the "*" of a message not yet terminated
+        for i, b in enumerate(self.buffer):
             if b == 59:
                 msg_stop = True
                 ts = time.time()
                 messages.append([self.current_msg, ts])
+                msg_start = None
             if b == 42:
                 msg_stop = False
                 self.current_msg = ""
+                msg_start = i
 
             if (not msg_stop) and (48 <= b <= 57 or 65 <= b <= 70 or 97 <= b <= 102):
                 self.current_msg = self.current_msg + chr(b)
 
-        self.buffer = []
+        # keep the unterminated message, if any, for the next reading cycle
+        if msg_start is None:
+            self.buffer = []
+        else:
+            self.buffer = self.buffer[msg_start:]
 
         return messages
 
@@ -83,6 +90,7 @@ class TcpClient(object):
         messages_mlat = []
         msg = []
         i = 0
+        start = 0  # position of the divider that opened the current message
 
         # process the buffer until the last divider <esc> 0x1a
         # then, reset the self.buffer with the remainder
@@ -92,31 +100,21 @@ class TcpClient(object):
                 msg.append(0x1A)
                 i += 1
             elif (i == len(self.buffer) - 1) and (self.buffer[i] == 0x1A):
-                # special case where the last bit is 0x1a
-                msg.append(0x1A)
+                # special case where the last bit is 0x1a: it is either the
+                # first half of <esc><esc> or the next divider, wait for more
+                break
             elif self.buffer[i] == 0x1A:
-                if i == len(self.buffer) - 1:
-                    # special case where the last bit is 0x1a
-                    msg.append(0x1A)
-                elif len(msg) > 0:
+                if len(msg) > 0:
                     messages_mlat.append(msg)
                     msg = []
+                start = i
             else:
                 msg.append(self.buffer[i])
             i += 1
 
-        # save the reminder for next reading cycle, if not empty
-        if len(msg) > 0:
-            reminder = []
-            for i, m in enumerate(msg):
-                if (m == 0x1A) and (i < len(msg) - 1):
-                    # rewind 0x1a, except when it is at the last bit
-                    reminder.extend([m, m])
-                else:
-                    reminder.append(m)
-            self.buffer = [0x1A] + msg
-        else:
-            self.buffer = []
+        # save the unprocessed raw bytes (from the last divider on) for the
+        # next reading cycle
+        self.buffer = self.buffer[start:]
 
         # extract messages
         messages = []
@@ -170,6 +168,7 @@ class TcpClient(object):
         messages_mlat = []
         msg = []
         i = 0
+        start = 0  # position of the divider that opened the current message
 
         # process the buffer until the last divider <esc> 0x1a
         # then, reset the self.buffer with the remainder
@@ -179,31 +178,21 @@ class TcpClient(object):
                 msg.append(0x1A)
                 i += 1
             elif (i == len(self.buffer) - 1) and (self.buffer[i] == 0x1A):
-                # special case where the last bit is 0x1a
-                msg.append(0x1A)
+                # special case where the last bit is 0x1a: it is either the
+                # first half of <esc><esc> or the next divider, wait for more
+                break
             elif self.buffer[i] == 0x1A:
-                if i == len(self.buffer) - 1:
-                    # special case where the last bit is 0x1a
-                    msg.append(0x1A)
-                elif len(msg) > 0:
+                if len(msg) > 0:
                     messages_mlat.append(msg)
                     msg = []
+                start = i
             else:
                 msg.append(self.buffer[i])
             i += 1
 
-        # save the reminder for next reading cycle, if not empty
-        if len(msg) > 0:
-            reminder = []
-            for i, m in enumerate(msg):
-                if (m == 0x1A) and (i < len(msg) - 1):
-                    # rewind 0x1a, except when it is at the last bit
-                    reminder.extend([m, m])
-                else:
-                    reminder.append(m)
-            self.buffer = [0x1A] + msg
-        else:
-            self.buffer = []
+        # save the unprocessed raw bytes (from the last divider on) for the
+        # next reading cycle
+        self.buffer = self.buffer[start:]
 
         # extract messages
         messages = []
